@@ -76,7 +76,10 @@ func TestC17(t *testing.T) {
 								}
 								// launch: the first launch of a fresh configuration; a second client built from
 								// the same *ClientConfig; the same client started again after a failed runner creation
-								for _, how := range []string{"first", "reuse", "retry", "cmd", "cmdenv"} {
+								for _, how := range []string{"first", "reuse", "retry", "cmd", "cmdenv", "reuseok"} {
+									if how == "reuseok" && (len(sub) > 0 || grp != "" || ports[0] != 0 || ports[1] != 0 || auto || mux) {
+										continue // the configuration has served a real, successfully negotiated start before: plain configurations
+									}
 									if how != "first" && len(sub) == 2 {
 										continue
 									}
@@ -93,7 +96,7 @@ func TestC17(t *testing.T) {
 									}
 									cells = append(cells, Cell{
 										Name:    fmt.Sprintf("host-half launch=%s legacy=%d versioned=%v AutoMTLS=%v mux=%v SkipHostEnv=%v group=%q ports=%v ambient=[%s]", how, vc.legacy, vc.vers, auto, mux, skip, grp, ports, an),
-										Plugin:  PluginConf{LegacyProto: "netrpc"},
+										Plugin:  PluginConf{CookieKey: cookieKey, CookieValue: cookieVal, Legacy: 1, LegacyProto: "netrpc", GRPCServer: true, TLS: "none"},
 										Host:    HostConf{TLS: tls, Mux: mux, Launch: "runner", Legacy: vc.legacy, Versions: vc.vers, SkipHostEnv: skip, Group: grp, MinPort: ports[0], MaxPort: ports[1], AmbientInCmd: inCmd},
 										Ops:     []string{op},
 										Ambient: a,
